@@ -187,6 +187,13 @@ func init() {
 	h["verifFill"] = func(in *Interp, caller *frame, fn *ssa.Function, args []Value) Value {
 		return in.verifFill(args)
 	}
+	h["verifConfig"] = func(in *Interp, caller *frame, fn *ssa.Function, args []Value) Value {
+		if in.config == nil {
+			in.config = map[string]bool{}
+		}
+		in.config[strArg(in, args[0])] = true
+		return nil
+	}
 	h["verifSymbolic"] = func(in *Interp, caller *frame, fn *ssa.Function, args []Value) Value { return TT.True }
 	h["verifIsOpaque"] = func(in *Interp, caller *frame, fn *ssa.Function, args []Value) Value {
 		return BoolT(args[0].(*StrV).opaque != "")
@@ -275,7 +282,7 @@ func init() {
 	// formatting of symbolic tags/types is only ever used for error messages
 	opaqueIfSym := func(name string) {
 		I[name] = func(in *Interp, caller *frame, fn *ssa.Function, args []Value) Value {
-			if t, ok := args[0].(*Term); ok && !in.simp(t).IsConst() {
+			if t, ok := args[0].(*Term); ok && !in.simp(t).IsConst() && !in.config["real-names"] {
 				return in.opaqueStr(name)
 			}
 			return in.callSSABody(caller, fn, args)
